@@ -396,6 +396,108 @@ static void dict_midstream(uint64_t *unit)
 					}
 }
 
+/* window-edge family: period-2^w noise (an exact repeat one window back everywhere) in which the byte at the cut position c and the
+ * byte TWO windows back carry a marker (00 / ff) while the byte ONE window back is noise: the hash bucket of the 4 bytes at c then
+ * holds an entry that aliases to distance exactly 2^w under the distance mask, and the real history byte at that distance differs.
+ * The data up to c is history - consumed by an earlier call (NO / SYNC flush) or installed as a dictionary (both routes) - so the
+ * codec works from whatever it kept of it. The result must decode, within a 2^w window, to the input. */
+static void window_edge_hist(uint64_t *unit)
+{
+	static const int ws[] = { 9, 10, 12, 14, 15 };
+	static const int cpus[] = { CPU_BASE, CPU_SSE, CPU_AVX2, CPU_AVX512G2 };
+	static struct isal_dict *pd;
+	if (!pd)
+		pd = malloc(sizeof *pd);
+	char key[300], why[256];
+	for (int wi = 0; wi < 5; wi++)
+		for (int level = 0; level <= 3; level++)
+			for (int ci = 0; ci < 4; ci++)
+				for (int mode = 0; mode < 4; mode++)      /* 0,1: two calls (first NO_FLUSH / SYNC_FLUSH); 2: set_dict; 3: process_dict + reset_dict */
+					for (int ck = 0; ck < 3; ck++)
+						for (int mk = 0; mk < 2; mk++) {
+							if (!v_mine((*unit)++))
+								continue;
+							if (nfail > 30 || v_deadline_hit())
+								return;
+							int w = ws[wi], Wd = 1 << w;
+							int cut = ck == 0 ? 2 * Wd : ck == 1 ? 3 * Wd : 2 * Wd + 1;
+							int len = cut + Wd / 2 + 300;
+							uint8_t M = mk ? 0xff : 0x00;
+							static uint8_t base[32768];
+							fill_xorshift(base, Wd, 99 + w);
+							for (int i = 0; i < len; i++)
+								IN[i] = base[i & (Wd - 1)];
+							IN[cut] = M;
+							IN[cut - 2 * Wd] = M;
+							if (IN[cut - Wd] == M)
+								IN[cut - Wd] ^= 0x3c;
+							cpu_set_level(cpus[ci]);
+							struct isal_zstream *s = g_alloc(sizeof *s, G_END);
+							uint8_t *lb = level ? g_alloc(lvl_default[level], G_END) : NULL;
+							int r = -1000, rd = 0, fault = 0;
+							size_t off = 0, total = 0;
+							snprintf(key, sizeof key, "window-edge hist_bits=%d level=%d cpu=%s history=%s cut=%d marker=%02x", w, level, cpu_level_name[cpus[ci]],
+								 mode == 0 ? "earlier call (NO_FLUSH)" : mode == 1 ? "earlier call (SYNC_FLUSH)" : mode == 2 ? "set_dict" : "process_dict+reset_dict", cut, M);
+							if (V_TRY()) {
+								isal_deflate_init(s);
+								s->level = level; s->level_buf = lb; s->level_buf_size = level ? lvl_default[level] : 0;
+								s->hist_bits = w;
+								s->next_out = OUT; s->avail_out = 300000;
+								if (mode < 2) {
+									uint8_t *c1 = g_alloc(cut, G_END), *c2 = g_alloc(len - cut, G_END);
+									memcpy(c1, IN, cut); memcpy(c2, IN + cut, len - cut);
+									s->flush = mode ? SYNC_FLUSH : NO_FLUSH;
+									s->next_in = c1; s->avail_in = cut; s->end_of_stream = 0;
+									r = isal_deflate(s);
+									if (r == COMP_OK && s->avail_in == 0) {
+										memset(c1, 0xA5, cut); /* the caller reuses the consumed chunk */
+										s->flush = NO_FLUSH;
+										s->next_in = c2; s->avail_in = len - cut; s->end_of_stream = 1;
+										r = isal_deflate(s);
+									}
+								} else {
+									uint8_t *d = g_alloc(cut, G_END), *c2 = g_alloc(len - cut, G_END);
+									memcpy(d, IN, cut); memcpy(c2, IN + cut, len - cut);
+									if (mode == 2)
+										rd = isal_deflate_set_dict(s, d, cut);
+									else {
+										memset(pd, 0xff, sizeof *pd);
+										rd = isal_deflate_process_dict(s, pd, d, cut);
+										if (rd == COMP_OK)
+											rd = isal_deflate_reset_dict(s, pd);
+									}
+									memset(d, 0xA5, cut); /* the dictionary buffer may be reused once it has been installed */
+									off = cut;
+									s->next_in = c2; s->avail_in = len - cut; s->end_of_stream = 1;
+									if (rd == COMP_OK)
+										r = isal_deflate(s);
+								}
+								total = s->total_out;
+								V_END();
+							} else
+								fault = 1;
+							v_eval();
+							if (fault) {
+								v_violation(key, "%s", v_fault_desc());
+								nfail++;
+							} else if (rd != COMP_OK || r != COMP_OK || s->internal_state.state != ZSTATE_END) {
+								v_violation(key, "dictionary call %d, isal_deflate %d, state %d", rd, r, s->internal_state.state);
+								nfail++;
+							} else {
+								/* the dictionary the decoder needs is the last 32 KiB (at most) of the history */
+								const uint8_t *h = off ? (off > 32768 ? IN + off - 32768 : IN) : NULL;
+								size_t hl = off ? (off > 32768 ? 32768 : off) : 0;
+								if (!verify_deflate_output(OUT, total, IGZIP_DEFLATE, IN + off, len - off, 0, 1u << w, h, hl, why, sizeof why)) {
+									v_violation(key, "%s", why);
+									nfail++;
+								}
+							}
+							g_reset();
+							v_count("window_edge_cases", 1);
+							v_nontrivial(v_mix(0xed9e + wi, level * 64 + ci * 16 + mode * 4 + ck * 2 + mk));
+						}
+}
+
 /* wrong-state dictionary calls are refused and leave the context byte-identical */
 static void dict_refusals(void)
 {
@@ -513,6 +615,7 @@ int main(int argc, char **argv)
 	if (!v_part || !strcmp(v_part, "dict")) {
 		dict_cases(&unit);
 		dict_midstream(&unit);
+		window_edge_hist(&unit);
 		if (v_shard == 0)
 			dict_refusals();
 	}
